@@ -133,9 +133,9 @@ const INVALID_GAPS: [GapSpec; 6] = [
 ];
 
 /// MILP-biased weights over `generate::ALL_FAMILIES`.
-const C15_WEIGHTS: [u64; 16] = [22, 10, 8, 12, 14, 5, 2, 4, 5, 4, 4, 4, 2, 2, 2, 1];
+const C15_WEIGHTS: [u64; 17] = [22, 10, 8, 12, 14, 5, 2, 4, 5, 4, 4, 4, 2, 2, 2, 1, 1];
 /// Everything, for the solver-agreement worlds.
-const C0405_WEIGHTS: [u64; 16] = [6, 4, 3, 8, 12, 18, 8, 6, 4, 5, 4, 8, 8, 4, 2, 2];
+const C0405_WEIGHTS: [u64; 17] = [6, 4, 3, 8, 12, 18, 8, 6, 4, 5, 4, 8, 8, 4, 2, 2, 4];
 
 fn c15_limits(tier: Tier, rng: &mut Rng) -> GenLimits {
     GenLimits {
@@ -234,6 +234,12 @@ pub fn explore_c15(unit_seed: u64, tier: Tier) -> UnitReport {
     let budget = read_budget(&m);
     rep.count(&format!("family:{fam_name}"));
     rep.count(&format!("front-door:{}", front.name()));
+    if !m.decor.is_empty() {
+        rep.count("probe:builder-model-with-linearizer-auxiliaries");
+    }
+    if m.vars.iter().any(|v| v.name.starts_with('$')) {
+        rep.count("probe:variables-named-like-linearizer-auxiliaries");
+    }
     rep.count(&format!("gap:{:?}", gap));
     rep.count(&format!("truth:{}", truth.tag()));
     rep.mix(&format!("{mh:x}"));
@@ -512,8 +518,9 @@ pub fn c0405_runs(m: &GenModel, rng: &mut Rng, rep: &mut UnitReport) -> Vec<RunC
             continue;
         }
         runs.push(RunCfg::plain(e));
-        if e.microlp_backed() || rng.chance(1, 4) {
-            // the same call under a moving clock: must be bit-identical
+        if e.microlp_backed() || rng.chance(1, 2) {
+            // the same call under a moving clock: must be bit-identical (the tableau simplex
+            // and Clarabel see the simulated clock through std::time, §2.1)
             let sched = if rng.chance(1, 2) {
                 Sched::Ticks {
                     seed: rng.next_u64(),
@@ -581,6 +588,12 @@ pub fn explore_c0405(prop: &str, unit_seed: u64, tier: Tier) -> UnitReport {
     let mh = model_hash(&m);
     rep.count(&format!("family:{fam_name}"));
     rep.count(&format!("truth:{}", truth.tag()));
+    if !m.decor.is_empty() {
+        rep.count("probe:builder-model-with-linearizer-auxiliaries");
+    }
+    if m.vars.iter().any(|v| v.name.starts_with('$')) {
+        rep.count("probe:variables-named-like-linearizer-auxiliaries");
+    }
     rep.mix(&format!("{mh:x}"));
     let mut runs = c0405_runs(&m, &mut rng, &mut rep);
     // triage aid (never set by the registered commands): look at one back-end only
